@@ -22,7 +22,7 @@ STUBS = []
 ENUM = ["adjacency bits, start-key subset, graph representation"]
 OUTSIDE = ["graphs with more nodes than the bound"]
 BOUNDS = {"quick": dict(nodes="<=3 (all digraphs incl. self-loops), 4 (no self-loops, toposort only)", start_keys="every non-empty subset"),
-          "thorough": dict(nodes="<=4 (all digraphs incl. self-loops), start keys every non-empty subset")}
+          "thorough": dict(nodes="toposort: <=4 incl. self-loops; getcycle/isdag: <=3 incl. self-loops, 4 without self-loops; dependency iteration orders: 3 nodes", start_keys="every subset incl. empty")}
 
 
 def functions():
@@ -200,9 +200,9 @@ def mk_hashed(N, what):
 FALSY = (0, "", (), "k3")
 
 
-def mk_getcycle(N):
+def mk_getcycle(N, loops=True):
     def setup(e):
-        adj = gen(e, N, True)
+        adj = gen(e, N, loops)
         start = [i for i in range(N) if e.flag(f"s{i}")]      # may be empty: getcycle(d, []) asks about nothing
         single = e.flag("single_key") if len(start) == 1 else False
         falsy = e.flag("falsy_keys")
@@ -237,10 +237,10 @@ def mk_getcycle(N):
             e.check(inv[a] in reachable, f"{a} is not reachable from {arg}")
         return "cyclic"
 
-    return Obligation(f"getcycle[N={N}]", setup, run)
+    return Obligation(f"getcycle[N={N},loops={loops}]", setup, run)
 
 
 def obligations(tier):
     if tier == "quick":
         return [mk_toposort(1), mk_toposort(2), mk_toposort(3), mk_toposort(4, loops=False), mk_ordered(3), mk_hashed(3, 'toposort'), mk_hashed(4, 'toposort'), mk_hashed(3, 'getcycle'), mk_getcycle(2), mk_getcycle(3)]
-    return [mk_toposort(1), mk_toposort(2), mk_toposort(3), mk_toposort(4), mk_ordered(3), mk_ordered(4), mk_hashed(3, 'toposort'), mk_hashed(4, 'toposort'), mk_hashed(4, 'getcycle'), mk_getcycle(2), mk_getcycle(3), mk_getcycle(4)]
+    return [mk_toposort(1), mk_toposort(2), mk_toposort(3), mk_toposort(4), mk_ordered(3), mk_hashed(3, 'toposort'), mk_hashed(4, 'toposort'), mk_hashed(4, 'getcycle'), mk_getcycle(2), mk_getcycle(3), mk_getcycle(4, loops=False)]
